@@ -42,6 +42,7 @@ class Run:
         self.solver_s = 0.0
         self.events = []
         self.max_values = explorer.max_values
+        self.lazy_ints = getattr(explorer, "lazy_ints", True)
 
     # -- solver ---------------------------------------------------------------------------------
     def assume(self, c):
@@ -169,10 +170,159 @@ class Run:
                 return v.v
             idx = self.decide_term(v.v, desc)
             return ctx.pool.strings[idx]
+        if v.k == "i" and is_sym(v.v) and self.lazy_ints:
+            sv = z3.simplify(v.v)
+            if not z3.is_int_value(sv):
+                return LazyInt(self, v.v, desc)
         x = self.decide_term(v.v, desc)
         if v.k == "r":
             return float(x)
         return int(x)
+
+
+class LazyInt:
+    """An integer that crossed from SQL into Python but has not been looked at yet.
+
+    Comparisons with numbers fork two ways on the symbolic comparison; passing it back to SQL as
+    a parameter keeps it symbolic; anything else (hashing, indexing, arithmetic with the concrete
+    world, formatting) forces it: all feasible values are enumerated as for any other value."""
+
+    __slots__ = ("run", "term", "_val", "desc")
+
+    def __init__(self, run, term, desc=""):
+        self.run = run
+        self.term = term
+        self._val = None
+        self.desc = desc
+
+    def force(self):
+        if self._val is None:
+            self._val = int(self.run.decide_term(self.term, self.desc))
+        return self._val
+
+    def _cmp(self, other, op):
+        if self._val is not None:
+            return op(self._val, other)
+        if isinstance(other, LazyInt):
+            other = other.term if other._val is None else other._val
+        if isinstance(other, bool):
+            other = int(other)
+        if not isinstance(other, (int, z3.ArithRef)):
+            if hasattr(other, "value") and isinstance(other.value, int):
+                other = other.value
+            else:
+                return NotImplemented
+        return self.run.decide_bool(op(self.term, other), f"{self.desc} cmp")
+
+    def __gt__(self, o):
+        return self._cmp(o, lambda a, b: a > b)
+
+    def __ge__(self, o):
+        return self._cmp(o, lambda a, b: a >= b)
+
+    def __lt__(self, o):
+        return self._cmp(o, lambda a, b: a < b)
+
+    def __le__(self, o):
+        return self._cmp(o, lambda a, b: a <= b)
+
+    def __eq__(self, o):
+        if o is None:
+            return False
+        r = self._cmp(o, lambda a, b: a == b)
+        return r
+
+    def __ne__(self, o):
+        r = self.__eq__(o)
+        return r if r is NotImplemented else not r
+
+    def __bool__(self):
+        if self._val is not None:
+            return self._val != 0
+        return self.run.decide_bool(self.term != 0, f"{self.desc} != 0")
+
+    def __hash__(self):
+        return hash(self.force())
+
+    def __index__(self):
+        return self.force()
+
+    def __int__(self):
+        return self.force()
+
+    def __float__(self):
+        return float(self.force())
+
+    def __repr__(self):
+        return f"LazyInt({self._val if self._val is not None else self.term})"
+
+    def __str__(self):
+        return str(self.force())
+
+    def __format__(self, spec):
+        return format(self.force(), spec)
+
+    def __add__(self, o):
+        return self.force() + o
+
+    __radd__ = __add__
+
+    def __sub__(self, o):
+        return self.force() - o
+
+    def __rsub__(self, o):
+        return o - self.force()
+
+    def __mul__(self, o):
+        return self.force() * o
+
+    __rmul__ = __mul__
+
+
+class LazyRows(list):
+    """Result of fetchall(): rows stay symbolic until Python looks at them; handing the list back
+    to executemany() inserts the guarded rows without enumerating which of them exist."""
+
+    def __init__(self, cursor):
+        super().__init__()
+        self._cursor = cursor
+        self._forced = False
+
+    def _force(self):
+        if not self._forced:
+            self._forced = True
+            while True:
+                r = self._cursor.fetchone()
+                if r is None:
+                    break
+                super().append(r)
+
+    def guarded(self):
+        bag = self._cursor.res.bag
+        return [] if bag is None else bag.rows[self._cursor.pos :]
+
+    def __iter__(self):
+        self._force()
+        return super().__iter__()
+
+    def __len__(self):
+        self._force()
+        return super().__len__()
+
+    def __getitem__(self, i):
+        self._force()
+        return super().__getitem__(i)
+
+    def __bool__(self):
+        self._force()
+        return super().__len__() > 0
+
+    def __eq__(self, other):
+        self._force()
+        return list(self) == other
+
+    def __repr__(self):
+        return f"LazyRows(forced={self._forced})"
 
 
 class SymCursor:
@@ -196,12 +346,7 @@ class SymCursor:
         return None
 
     def fetchall(self):
-        out = []
-        while True:
-            r = self.fetchone()
-            if r is None:
-                return out
-            out.append(r)
+        return LazyRows(self)
 
     def __iter__(self):
         return self
@@ -216,7 +361,7 @@ class SymCursor:
     def rowcount(self):
         if self._rowcount is None:
             rc = self.res.rowcount
-            self._rowcount = self.db.run.decide_term(rc, "rowcount") if is_sym(rc) else rc
+            self._rowcount = LazyInt(self.db.run, rc, "rowcount") if is_sym(rc) else rc
         return self._rowcount
 
     @property
@@ -277,6 +422,28 @@ class SymDB:
     def executemany(self, sql, seq_of_args):
         total = 0
         last = None
+        if isinstance(seq_of_args, LazyRows) and not seq_of_args._forced:
+            # guarded insertion: no enumeration of which rows exist
+            from .dml import bind_params
+            from .engine import Params, Scope
+            from .parse import parse
+            import lark
+
+            snapshot = self.ctx.copy_state()
+            self.ctx.aborts = []
+            tree = [c for c in parse(sql).children if isinstance(c, lark.Tree)][0]
+            for g, vals in seq_of_args.guarded():
+                params = Params(list(vals))
+                st = bind_params(tree, params)
+                self.engine.statement(st, Scope(None, params), g)
+            self._sync()
+            aborts, self.ctx.aborts = self.ctx.aborts, []
+            if aborts:
+                anyc = bOr(*[c for c, _, _ in aborts])
+                if self.run.decide_bool(anyc, "integrity error"):
+                    self.ctx.tables = snapshot
+                    raise sqlite3.IntegrityError(aborts[0][2])
+            return SymCursor(self, Result(rowcount=-1, kind="many"))
         for args in seq_of_args:
             last = self.execute(sql, args)
             rc = last.res.rowcount
